@@ -106,6 +106,14 @@ class ExprMixin:
         """d[k] on a defaultdict(Class): a missing key is inserted with a freshly constructed object.
         The new object is allocated on both branches (harmless: unreachable if the key is present)."""
         ke = self.to_elem(k, d.kty)
+        if d.default == "list":
+            # defaultdict(list): a missing key is inserted with an empty list
+            has = self.seq_contains(d.keys, ke)
+            val = z3.If(has, z3.Select(d.m, ke), z3.Empty(d.m.range()))
+            keys = z3.If(has, d.keys, z3.Concat(d.keys, z3.Unit(ke)))
+            nd = VDict(d.kty, d.vty, keys, z3.Store(d.m, ke, val), d.default)
+            self.assign(node.value, nd, st)
+            return elem_value(d.vty, val)
         has = self.dict_has(d, ke)
         ci = VClass(name=d.default)
         newobj = self.construct(ci, [], {}, st, node)
